@@ -963,19 +963,24 @@ def _guards_to_else(stmts: List[ast.stmt]) -> List[ast.stmt]:
     return out
 
 
-def _split_tuple_assigns(node) -> None:
-    """a, b = x, y  ->  a = x; b = y   (plain names on the left, none of them read on the right)"""
+def _split_tuple_assigns(node, attrs: bool = False) -> None:
+    """a, b = x, y  ->  a = x; b = y   (plain names on the left — with attrs=True also `o.a, o.b = x, y` — none of them read on the right)"""
     for block in _blocks(node):
         i = 0
         while i < len(block):
             st = block[i]
             if isinstance(st, ast.Assign) and len(st.targets) == 1 and isinstance(st.targets[0], ast.Tuple) and \
                     isinstance(st.value, ast.Tuple) and len(st.value.elts) == len(st.targets[0].elts) and \
-                    all(isinstance(t, ast.Name) for t in st.targets[0].elts) and \
+                    all(isinstance(t, ast.Name) or (attrs and isinstance(t, ast.Attribute) and isinstance(t.value, ast.Name))
+                        for t in st.targets[0].elts) and \
                     not any(isinstance(x, ast.Starred) for x in st.value.elts):
-                names = {t.id for t in st.targets[0].elts}
-                if not any(isinstance(n, ast.Name) and n.id in names for n in ast.walk(st.value)):
-                    new = [ast.copy_location(ast.Assign(targets=[ast.Name(id=t.id, ctx=ast.Store())], value=v), st)
+                names = {t.id for t in st.targets[0].elts if isinstance(t, ast.Name)}
+                # (attribute targets `o.a, o.b = x, y`: the right side may not read an attribute of o that the left side stores)
+                stored_attrs = {(t.value.id, t.attr) for t in st.targets[0].elts if isinstance(t, ast.Attribute)}
+                reads_stored = any(isinstance(n, ast.Attribute) and isinstance(n.value, ast.Name) and (n.value.id, n.attr) in stored_attrs
+                                   for n in ast.walk(st.value))
+                if not any(isinstance(n, ast.Name) and n.id in names for n in ast.walk(st.value)) and not reads_stored:
+                    new = [ast.copy_location(ast.Assign(targets=[copy.deepcopy(t)], value=v), st)
                            for t, v in zip(st.targets[0].elts, st.value.elts)]
                     block[i:i + 1] = new
                     i += len(new)
@@ -1069,7 +1074,7 @@ def _is_path(e: ast.AST) -> bool:
             return False
 
 
-def _forward_subst(fn_node: ast.FunctionDef, keep: set, alias_only: bool = False) -> None:
+def _forward_subst(fn_node: ast.FunctionDef, keep: set, alias_only: bool = False, store_values: bool = False) -> None:
     """substitute single-assignment locals (assigned once from an expression, all uses later in the same block or below it)"""
     params = {a.arg for a in fn_node.args.posonlyargs + fn_node.args.args + fn_node.args.kwonlyargs}
     for _ in range(24):
@@ -1098,7 +1103,11 @@ def _forward_subst(fn_node: ast.FunctionDef, keep: set, alias_only: bool = False
                 pure = isinstance(st.value, ast.Call) and isinstance(st.value.func, ast.Name) and st.value.func.id in ("len", "int", "float", "abs", "str", "bool") \
                     and not st.value.keywords and all(_is_path(a) for a in st.value.args)
                 trivial = _is_path(st.value) or (pure and not alias_only)
-                if alias_only and not trivial and not (v.startswith("__") and loads.get(v, 0) == 1):
+                # store_values: a value computed first and then stored whole (`x = f(..); ...; o.a = x`) is put into the store
+                whole_store = store_values and len(uses) == 1 and loads.get(v, 0) == 1 and any(
+                    isinstance(s2, ast.Assign) and s2.value is uses[0] and len(s2.targets) == 1 and isinstance(s2.targets[0], ast.Attribute)
+                    for s2 in rest)
+                if alias_only and not trivial and not (v.startswith("__") and loads.get(v, 0) == 1) and not whole_store:
                     continue      # (temporaries the normaliser itself introduced for arguments are always put back)
                 if not uses or len(uses) != loads.get(v, 0) or (len(uses) > 3 and not trivial):
                     continue
@@ -1414,6 +1423,60 @@ def with_roles(fn, roles):
     return dataclasses.replace(fn, node=node)
 
 
+def _ctor_kwargs_to_stores(M, fn, node: ast.FunctionDef) -> None:
+    """`x = C(a=v, b=w)` / `return C(a=v, b=w)` for a dataclass C of the repository (no __post_init__ in its hierarchy, every keyword
+    a field) is `x = C(); x.a = v; x.b = w`: an object built with its final values reads like one built empty and filled"""
+    def target_class(call):
+        if not isinstance(call, ast.Call) or call.args or not call.keywords or any(k.arg is None for k in call.keywords):
+            return None
+        r = M.resolve_expr(fn.mod, call.func, fn.cls) if isinstance(call.func, (ast.Name, ast.Attribute)) else None
+        if not r or r[0] != "class":
+            return None
+        c = r[1] if isinstance(r[1], str) else getattr(r[1], "qual", None)
+        if c not in M.classes:
+            return None
+        fields = {f[0] for f in M.dataclass_fields(c)}
+        if not fields or not {k.arg for k in call.keywords} <= fields:
+            return None
+        decided = False
+        for k in M.mro(c):
+            if k not in M.classes:
+                continue
+            own = {b.name for b in M.classes[k].node.body if isinstance(b, ast.FunctionDef)}
+            if own & {"__post_init__", "__setattr__"}:
+                return None
+            if not decided:
+                # the __init__ that runs: the first class of the MRO that writes its own or is decorated with @dataclass (generated)
+                if "__init__" in own:
+                    return None
+                if any(ast.unparse(d).split("(")[0].split(".")[-1] == "dataclass" for d in M.classes[k].node.decorator_list):
+                    decided = True
+        return c if decided else None
+    for block in _blocks(node):
+        i = 0
+        while i < len(block):
+            st = block[i]
+            call = st.value if isinstance(st, (ast.Assign, ast.Return)) else None
+            if call is not None and target_class(call) is not None and \
+                    (isinstance(st, ast.Return) or (len(st.targets) == 1 and isinstance(st.targets[0], ast.Name))):
+                name = st.targets[0].id if isinstance(st, ast.Assign) else f"__new_{next(_counter)}"
+                if any(isinstance(n, ast.Name) and n.id == name for k in call.keywords for n in ast.walk(k.value)):
+                    i += 1
+                    continue
+                new: List[ast.stmt] = [ast.copy_location(ast.Assign(targets=[ast.Name(id=name, ctx=ast.Store())],
+                                                                    value=ast.copy_location(ast.Call(func=call.func, args=[], keywords=[]), call)), st)]
+                for k in call.keywords:
+                    new.append(ast.copy_location(ast.Assign(targets=[ast.Attribute(value=ast.Name(id=name, ctx=ast.Load()), attr=k.arg, ctx=ast.Store())],
+                                                            value=k.value), k.value))
+                if isinstance(st, ast.Return):
+                    new.append(ast.copy_location(ast.Return(value=ast.Name(id=name, ctx=ast.Load())), st))
+                block[i:i + 1] = new
+                i += len(new)
+                continue
+            i += 1
+    ast.fix_missing_locations(node)
+
+
 def _fuse_tuple_buffers(node: ast.FunctionDef) -> bool:
     """`B = []` … `B.append((x, y, z))` inside a loop … `T = [elt for a, b, c in B if cond]` after it (B used nowhere else): the
     consumers are moved to the producer — `T = []` where B was created, `if cond[x,y,z]: T.append(elt[x,y,z])` where the tuple was
@@ -1491,7 +1554,8 @@ def _fuse_tuple_buffers(node: ast.FunctionDef) -> bool:
     return changed
 
 
-def normalise(M, fn, subst: bool = False, guards: bool = False, keep=(), comps: bool = False, ifexp: bool = False, closures: bool = False, ssa: bool = False) -> ast.FunctionDef:
+def normalise(M, fn, subst: bool = False, guards: bool = False, keep=(), comps: bool = False, ifexp: bool = False, closures: bool = False, ssa: bool = False,
+              ctor: bool = False) -> ast.FunctionDef:
     """a normalised deep copy of fn.node (see module docstring)"""
     node = copy.deepcopy(fn.node)
     for _ in range(4):
@@ -1524,6 +1588,12 @@ def normalise(M, fn, subst: bool = False, guards: bool = False, keep=(), comps: 
             _expand_unpack(node)
             _version_rebinds(node)
         _forward_subst(node, set(keep), alias_only=(subst == "alias"))
+    elif ctor:
+        # builders: constructor keywords are attribute stores, `o.a, o.b = x, y` is two stores, a value computed first and stored
+        # whole afterwards sits in the store
+        _ctor_kwargs_to_stores(M, fn, node)
+        _split_tuple_assigns(node, attrs=True)
+        _forward_subst(node, set(keep), alias_only=True, store_values=True)
     else:
         # only the temporaries the normaliser itself introduced for helper / closure arguments are put back (single use)
         _forward_subst(node, {n.id for n in ast.walk(node) if isinstance(n, ast.Name) and not n.id.startswith("__")}, alias_only=True)
